@@ -17,6 +17,7 @@ components or COLR layers are not in that set and lose their GDEF data (as in Ha
 -/
 import FontVerif.Model.SubsetGdef
 import FontVerif.Lemmas.SubsetLayout
+import FontVerif.Lemmas.SubsetLayoutClassDef
 set_option linter.unusedVariables false
 namespace FontVerif.C17Layout
 open FontVerif FontVerif.Layout FontVerif.SubsetLayout
@@ -207,5 +208,256 @@ example : CovOk exPlan exCov := by
 example : (match subsetCoverage exPlan exCov with
     | .ok w => some w.toCoverage
     | .error _ => none) = some (.fmt1 [1, 2, 3]) := by decide +kernel
+
+/-! ## 2. ClassDef -/
+
+/-- a class definition as the specification requires it (format 2: records ascending and disjoint;
+format 1 has no side condition) -/
+def ClassOk : ClassDef → Prop
+  | .fmt1 _ _ => True
+  | .fmt2 rs => WFClassRanges rs
+
+/-- the plan of a font with at most 65535 output glyphs -/
+structure PlanOk' (p : LPlan) : Prop extends PlanOk p where
+  newLt' : ∀ kv ∈ p.gmap, kv.2 < 65535
+  numLe : p.numGlyphs ≤ 65536
+  nonempty : p.glyphset ≠ []
+
+/-- the class a returned class map gives (identity without remapping; an unknown class is 0) -/
+def remapC (cm : Option (List (Nat × Nat))) (c : Nat) : Nat :=
+  match cm with
+  | none => c
+  | some m => (m.lookup c).getD 0
+
+/-- the class the subset has to give the image of kept glyph `g` -/
+def wantClass (a : CdArgs) (cd : ClassDef) (g : Nat) : Nat := if passFilter a g then cd.get g else 0
+
+theorem subsetClassDef_pairs {p : LPlan} (hp : PlanOk' p) {a : CdArgs} {cd : ClassDef}
+    (hcd : ClassOk cd) : ∃ ps, cdPairs p a cd = some ps ∧ PairsSpec p a cd ps := by
+  obtain ⟨ps, hps⟩ := cdPairs_total hp.nonempty a cd
+  refine ⟨ps, hps, cdPairs_spec hp.toPlanOk hp.numLe a ?_ hps⟩
+  intro rs e; subst e; exact hcd
+
+theorem pairs_classes_nz {p : LPlan} {a : CdArgs} {cd : ClassDef} {ps : List (Nat × Nat)}
+    (hspec : PairsSpec p a cd ps) : ∀ c ∈ retainedClasses ps, c ≠ 0 := by
+  intro c hc
+  obtain ⟨n, hn⟩ := ((retainedClasses_spec ps).2 c).mp hc
+  obtain ⟨_, _, _, _, hc0⟩ := (hspec.2 n c).mp hn
+  exact hc0
+
+/-- **classdef_subset_get**: for every `ClassDefSubsetStruct`: when `ClassDef::subset` succeeds, reading
+the written table with read-fonts' `ClassDef::get` at the image of a kept glyph gives the class map
+applied to the original class of the glyph (the original class itself when `remap_class` is false, as
+GDEF uses it; class 0 when the glyph filter rejects the glyph), and class 0 at every id that is not
+the image of a kept glyph — for both source formats, both strategies of the format 2 subsetter and
+both output formats. -/
+theorem classdef_subset_get {p : LPlan} (hp : PlanOk' p) {a : CdArgs} {cd : ClassDef}
+    (hcd : ClassOk cd) {out : ClassDef} {cm : Option (List (Nat × Nat))}
+    (h : subsetClassDef p a cd = .ok (out, cm)) :
+    (∀ g n, p.get g = some n → out.get n = remapC cm (wantClass a cd g)) ∧
+    (∀ n, (∀ g, p.get g ≠ some n) → out.get n = 0) ∧
+    (cm.isSome = a.remapClass) := by
+  obtain ⟨ps, hps, hspec⟩ := subsetClassDef_pairs hp (a := a) hcd
+  have hkeys : ∀ x ∈ ps, x.1 < 65535 := by
+    intro x hx
+    obtain ⟨g, hg, _⟩ := (hspec.2 x.1 x.2).mp hx
+    exact hp.newLt' _ ((hp.get_iff g x.1).mp hg)
+  have hget := pairsSpec_itemGet hp.toPlanOk hspec
+  unfold subsetClassDef at h
+  simp only [hps] at h
+  split at h
+  · cases h
+  · by_cases hr : a.remapClass = true
+    · simp only [hr, Bool.not_true, Bool.false_eq_true, ↓reduceIte] at h
+      cases hcm : classMap (useClassZero p a ps.length) (retainedClasses ps) with
+      | none => simp [hcm] at h
+      | some m =>
+        simp only [hcm] at h
+        have hs' : SortedItems (ps.map fun x => (x.1, (m.lookup x.2).getD 0)) := by
+          unfold SortedItems; rw [List.pairwise_map]; exact hspec.1
+        have hk' : ∀ x ∈ ps.map (fun x => (x.1, (m.lookup x.2).getD 0)), x.1 < 65535 := by
+          intro x hx
+          obtain ⟨y, hy, e⟩ := List.mem_map.mp hx
+          rw [← e]; exact hkeys y hy
+        obtain ⟨cd', hw, hg'⟩ := serializeClassDef_get hs' hk'
+        rw [hw] at h
+        simp only [Except.map, Except.ok.injEq, Prod.mk.injEq] at h
+        obtain ⟨e1, e2⟩ := h
+        subst e1; subst e2
+        have h0 := (classMap_lookup (retainedClasses_spec ps).1 (pairs_classes_nz hspec) hcm).1
+        have hmap := itemGet_map (fun c => (m.lookup c).getD 0)
+        refine ⟨?_, ?_, by simp [hr]⟩
+        · intro g n hg
+          rw [hg' n, hmap n ps]
+          have := hget.1 g n hg
+          simp only [remapC, wantClass]
+          cases hi : itemGet n ps with
+          | none =>
+            rw [hi] at this
+            simp only [Option.getD_none] at this
+            rw [← this]
+            simp [h0]
+          | some c =>
+            rw [hi] at this
+            simp only [Option.getD_some] at this
+            rw [← this]; rfl
+        · intro n hn
+          rw [hg' n, hmap n ps]
+          have := hget.2 n hn
+          cases hi : itemGet n ps with
+          | none => rfl
+          | some c =>
+            rw [hi] at this
+            simp only [Option.getD_some] at this
+            subst this
+            simp [h0]
+    · simp only [hr, Bool.not_false, ↓reduceIte] at h
+      obtain ⟨cd', hw, hg'⟩ := serializeClassDef_get hspec.1 hkeys
+      rw [hw] at h
+      simp only [Except.map, Except.ok.injEq, Prod.mk.injEq] at h
+      obtain ⟨e1, e2⟩ := h
+      subst e1; subst e2
+      refine ⟨?_, ?_, by simp [hr]⟩
+      · intro g n hg
+        rw [hg' n]
+        exact hget.1 g n hg
+      · intro n hn
+        rw [hg' n]
+        exact hget.2 n hn
+
+/-- **classdef_subset_total**: on a well-formed table (classes below 0xFFFF) `ClassDef::subset` fails
+only with `Err(EMPTY)`, exactly when `keep_empty_table` is off and no kept glyph (passing the
+filter) has a non-zero class; it never panics and never errors otherwise. -/
+theorem classdef_subset_total {p : LPlan} (hp : PlanOk' p) {a : CdArgs} {cd : ClassDef}
+    (hcd : ClassOk cd) (hcls : ∀ g n, p.get g = some n → cd.get g < 65535) :
+    (∃ r, subsetClassDef p a cd = .ok r) ∨
+    (subsetClassDef p a cd = .error .empty ∧ a.keepEmpty = false ∧
+      ∀ g n, p.get g = some n → wantClass a cd g = 0) := by
+  obtain ⟨ps, hps, hspec⟩ := subsetClassDef_pairs hp (a := a) hcd
+  have hkeys : ∀ x ∈ ps, x.1 < 65535 := by
+    intro x hx
+    obtain ⟨g, hg, _⟩ := (hspec.2 x.1 x.2).mp hx
+    exact hp.newLt' _ ((hp.get_iff g x.1).mp hg)
+  unfold subsetClassDef
+  simp only [hps]
+  by_cases he : (!a.keepEmpty && ps.isEmpty) = true
+  · right
+    simp only [he, ↓reduceIte, true_and]
+    simp only [Bool.and_eq_true, Bool.not_eq_eq_eq_not, Bool.not_true, List.isEmpty_iff] at he
+    refine ⟨he.1, ?_⟩
+    intro g n hg
+    unfold wantClass
+    by_cases hf : passFilter a g = true
+    · simp only [hf, ↓reduceIte]
+      apply Classical.byContradiction
+      intro hne
+      have := (hspec.2 n (cd.get g)).mpr ⟨g, hg, hf, rfl, hne⟩
+      rw [he.2] at this; cases this
+    · simp [hf]
+  · left
+    simp only [he, Bool.false_eq_true, ↓reduceIte]
+    by_cases hr : a.remapClass = true
+    · simp only [hr, Bool.not_true, Bool.false_eq_true, ↓reduceIte]
+      -- classes are 1..65534, so there are at most 65534 of them: the u16 counter cannot overflow
+      have hlen2 : (retainedClasses ps).length ≤ 65534 := by
+        have := sorted_length_le_aux (retainedClasses_spec ps).1 1 65535 (fun c hc => by
+          constructor
+          · have := pairs_classes_nz hspec c hc; omega
+          · obtain ⟨n, hn⟩ := ((retainedClasses_spec ps).2 c).mp hc
+            obtain ⟨g, hg, _, hcg, _⟩ := (hspec.2 n c).mp hn
+            rw [← hcg]; exact hcls g n hg)
+        omega
+      obtain ⟨m, hm⟩ := classMap_total (useClassZero p a ps.length) hlen2
+      simp only [hm]
+      have hs' : SortedItems (ps.map fun x => (x.1, (m.lookup x.2).getD 0)) := by
+        unfold SortedItems; rw [List.pairwise_map]; exact hspec.1
+      have hk' : ∀ x ∈ ps.map (fun x => (x.1, (m.lookup x.2).getD 0)), x.1 < 65535 := by
+        intro x hx
+        obtain ⟨y, hy, e⟩ := List.mem_map.mp hx
+        rw [← e]; exact hkeys y hy
+      obtain ⟨cd', hw, _⟩ := serializeClassDef_get hs' hk'
+      exact ⟨_, by rw [hw]; rfl⟩
+    · simp only [hr, Bool.not_false, ↓reduceIte]
+      obtain ⟨cd', hw, _⟩ := serializeClassDef_get hspec.1 hkeys
+      exact ⟨_, by rw [hw]; rfl⟩
+
+/-- **classdef_remap_is_order_preserving_bijection**: the class map returned under `remap_class` is
+`0 ↦ 0` (unless class zero is reused) followed by the classes that occur among the kept glyphs
+(passing the filter), in ascending order, numbered consecutively from `base` = 0 (class zero reused)
+or 1: an order preserving bijection from the occurring classes onto `base .. base + k - 1`. -/
+theorem classdef_remap_is_order_preserving_bijection {p : LPlan} (hp : PlanOk' p) {a : CdArgs}
+    {cd : ClassDef} (hcd : ClassOk cd) {out : ClassDef} {m : List (Nat × Nat)}
+    (h : subsetClassDef p a cd = .ok (out, some m)) :
+    ∃ (R : List Nat) (base : Nat),
+      R.Pairwise (· < ·) ∧
+      (∀ c, c ∈ R ↔ c ≠ 0 ∧ ∃ g n, p.get g = some n ∧ wantClass a cd g = c) ∧
+      (base = 0 ∨ (base = 1 ∧ m.lookup 0 = some 0)) ∧
+      (∀ i c, R[i]? = some c → m.lookup c = some (base + i)) ∧
+      (∀ c c', c ∈ R → c' ∈ R → c < c' →
+        ∃ v v', m.lookup c = some v ∧ m.lookup c' = some v' ∧ v < v') ∧
+      (∀ j, j < R.length → ∃ c, c ∈ R ∧ m.lookup c = some (base + j)) := by
+  obtain ⟨ps, hps, hspec⟩ := subsetClassDef_pairs hp (a := a) hcd
+  unfold subsetClassDef at h
+  simp only [hps] at h
+  split at h
+  · cases h
+  · by_cases hr : a.remapClass = true
+    · simp only [hr, Bool.not_true, Bool.false_eq_true, ↓reduceIte] at h
+      cases hcm : classMap (useClassZero p a ps.length) (retainedClasses ps) with
+      | none => simp [hcm] at h
+      | some m' =>
+        simp only [hcm] at h
+        cases hw : serializeClassDef (ps.map fun x => (x.1, (m'.lookup x.2).getD 0)) with
+        | error e => simp [hw, Except.map] at h
+        | ok cd' =>
+          simp only [hw, Except.map, Except.ok.injEq, Prod.mk.injEq, Option.some.injEq] at h
+          obtain ⟨_, e2⟩ := h
+          subst e2
+          have hR := retainedClasses_spec ps
+          have hnz := pairs_classes_nz hspec
+          obtain ⟨_, l0, lk⟩ := classMap_lookup hR.1 hnz hcm
+          refine ⟨retainedClasses ps, if useClassZero p a ps.length then 0 else 1, hR.1, ?_, ?_, lk, ?_, ?_⟩
+          · intro c
+            rw [hR.2 c]
+            constructor
+            · rintro ⟨n, hn⟩
+              obtain ⟨g, hg, hf, hcg, hc0⟩ := (hspec.2 n c).mp hn
+              exact ⟨hc0, g, n, hg, by simp [wantClass, hf, hcg]⟩
+            · rintro ⟨hc0, g, n, hg, hw⟩
+              have hf : passFilter a g = true := by
+                apply Classical.byContradiction
+                intro hf; simp [wantClass, hf] at hw; omega
+              exact ⟨n, (hspec.2 n c).mpr ⟨g, hg, hf, by simpa [wantClass, hf] using hw, hc0⟩⟩
+          · by_cases hz : useClassZero p a ps.length = true
+            · left; simp [hz]
+            · right
+              simp only [hz, Bool.false_eq_true, ↓reduceIte, true_and]
+              exact l0 (by simpa using hz)
+          · intro c c' hc hc' hlt
+            obtain ⟨i, hi, ei⟩ := List.getElem_of_mem hc
+            obtain ⟨j, hj, ej⟩ := List.getElem_of_mem hc'
+            have hij : i < j := by
+              rcases Nat.lt_trichotomy i j with hh | hh | hh
+              · exact hh
+              · subst hh; rw [ei] at ej; omega
+              · have := List.pairwise_iff_getElem.mp hR.1 j i hj hi hh; rw [ei, ej] at this; omega
+            have li := lk i c (by rw [List.getElem?_eq_getElem hi, ei])
+            have lj := lk j c' (by rw [List.getElem?_eq_getElem hj, ej])
+            exact ⟨_, _, li, lj, by omega⟩
+          · intro j hj
+            exact ⟨(retainedClasses ps)[j], List.getElem_mem hj, lk j _ (List.getElem?_eq_getElem hj)⟩
+    · simp only [hr, Bool.not_false, ↓reduceIte] at h
+      cases hw : serializeClassDef ps with
+      | error e => simp [hw, Except.map] at h
+      | ok cd' => simp [hw, Except.map] at h
+
+/-- non-vacuity: the ClassDef hypotheses hold for the example plan; a format 2 class definition
+{3..6 ↦ 2, 9 ↦ 5} subsets to {1, 2 ↦ 2; 3 ↦ 5} -/
+example : PlanOk' exPlan :=
+  { keys := by decide, sorted := by simp [exPlan], newLt := by simp [exPlan], keyLt := by simp [exPlan],
+    newLt' := by simp [exPlan], numLe := by simp [exPlan], nonempty := by simp [exPlan] }
+
+example : ClassOk (.fmt2 [⟨3, 6, 2⟩, ⟨9, 9, 5⟩]) := by
+  simp [ClassOk, WFClassRanges]
 
 end FontVerif.C17Layout
